@@ -254,6 +254,35 @@ def module_state_free(ctx, rep, R, rel, what):
                 atgt = n.func.value.attr
             if atgt in cls_state:
                 written.setdefault("<class>." + atgt, set()).add(fn.name)
+    # mutable default arguments that are changed in place or escape (stored, returned): one object shared by all calls
+    MUT = ("append", "extend", "add", "update", "setdefault", "insert", "pop", "clear", "remove", "discard", "popitem", "appendleft", "sort")
+    for fn in ast.walk(mod):
+        if not isinstance(fn, (ast.FunctionDef, ast.AsyncFunctionDef)):
+            continue
+        a = fn.args
+        pos = a.posonlyargs + a.args
+        pairs = list(zip(pos[len(pos) - len(a.defaults):], a.defaults)) + [(k, d) for k, d in zip(a.kwonlyargs, a.kw_defaults) if d is not None]
+        for prm, d in pairs:
+            if not (isinstance(d, (ast.List, ast.Dict, ast.Set)) or (isinstance(d, ast.Call) and (call_name(d) or "").split(".")[-1] in MUTABLE_CTORS)):
+                continue
+            v = prm.arg
+            rebound_first = bool(fn.body) and any(isinstance(st, ast.Assign) and any(is_name(t, v) for t in st.targets) for st in fn.body[:3])
+            touched = False
+            for n in ast.walk(fn):
+                if isinstance(n, ast.Call) and isinstance(n.func, ast.Attribute) and is_name(n.func.value, v) and n.func.attr in MUT:
+                    touched = True
+                elif isinstance(n, (ast.Assign, ast.AugAssign)):
+                    for t in (n.targets if isinstance(n, ast.Assign) else [n.target]):
+                        if isinstance(t, ast.Subscript) and is_name(t.value, v):
+                            touched = True
+                        if isinstance(t, ast.Attribute) and isinstance(n, ast.Assign) and is_name(n.value, v):
+                            touched = True  # stored on an object: the shared default escapes
+                    if isinstance(n, ast.AugAssign) and is_name(n.target, v):
+                        touched = True
+                elif isinstance(n, ast.Return) and n.value is not None and is_name(n.value, v):
+                    touched = True
+            if touched and not rebound_first:
+                written.setdefault("<default of %s>" % v, set()).add(fn.name)
     rep.ob(R, rel, "no state kept between calls in " + what, not written and not deco,
            "module-level container(s) written by functions: %s; caching decorators: %s — a result remembered from an earlier request (keyed by a "
            "class name, an id(), a reference tuple) is served for a later one although the tree, the enclosing scope or the lookup flags differ"
